@@ -152,6 +152,10 @@ def legacy_factories():
     f["ULA"] = lambda callback=None: S.ULA(post, scale=0.01, x0=x0.copy(), callback=callback)
     f["MALA"] = lambda callback=None: S.MALA(post, scale=0.05, x0=x0.copy(), callback=callback)
     f["NUTS"] = lambda callback=None: S.NUTS(post, max_depth=3, x0=x0.copy(), callback=callback)
+    # documented non-default options: a fixed step size / no adaptation (burn-in is then plain burn-in)
+    f["NUTS.fixedstep"] = lambda callback=None: S.NUTS(post, max_depth=3, adapt_step_size=0.05, x0=x0.copy(), callback=callback)
+    f["NUTS.noadapt"] = lambda callback=None: S.NUTS(post, max_depth=3, adapt_step_size=False, x0=x0.copy(), callback=callback)
+    f["MH.vecscale"] = lambda callback=None: S.MH(post, scale=0.2, x0=x0.copy(), callback=callback)
     f["LinearRTO"] = lambda callback=None: S.LinearRTO(post, maxit=50, x0=x0.copy(), callback=callback)
     rpost = regularized_posterior()
     f["RegularizedLinearRTO"] = lambda callback=None: S.RegularizedLinearRTO(rpost, maxit=30, stepsize=0.005, callback=callback)
